@@ -8,3 +8,89 @@ Open Scope Q_scope.
 Theorem C04_pieces_sum_is_loop_duration : forall l, sum_pieces 1 l == loop_duration l.
 Proof. exact sum_pieces_is_duration. Qed.
 Print Assumptions C04_pieces_sum_is_loop_duration.
+
+(* to_waveform(program).duration is Loop.duration on every tree with counts >= 1 and no childless inner node *)
+Theorem C04_waveform_duration_is_loop_duration :
+  forall l, wfl l -> exists q, wf_duration l = Some q /\ q == loop_duration l.
+Proof. exact wf_duration_is_loop_duration. Qed.
+Print Assumptions C04_waveform_duration_is_loop_duration.
+
+(* ... and create_program only builds such trees *)
+Theorem C04_created_programs_wellformed : forall p e kids, cp p e = Ok kids -> Forall wfl kids.
+Proof. exact Lp_all. Qed.
+Print Assumptions C04_created_programs_wellformed.
+
+(* len(range(a, b, s)) = max(0, ceiling((b - a)/s)) for both signs of s, and the k-th element is a + k*s *)
+Theorem C04_range_len : forall a b s, s <> 0%Z ->
+  Z.of_nat (length (zrange a b s)) = Z.max 0 (Qceiling ((inject_Z b - inject_Z a) / inject_Z s)).
+Proof. exact zrange_length. Qed.
+Print Assumptions C04_range_len.
+
+Theorem C04_range_nth : forall a b s k, s <> 0%Z -> (k < length (zrange a b s))%nat ->
+  nth k (zrange a b s) 0%Z = (a + Z.of_nat k * s)%Z.
+Proof. exact zrange_nth. Qed.
+Print Assumptions C04_range_nth.
+
+(* n repetitions of a leaf last exactly n x the leaf, for every n (an identity of Q: nothing accumulates) *)
+Theorem C04_no_accumulation : forall n d, total (wrap_node n [Leaf 1 d]) == inject_Z n * d.
+Proof. exact rep_leaf_exact. Qed.
+Print Assumptions C04_no_accumulation.
+
+(* program side of the property, all template kinds, unbounded: whenever the template denotes a duration d
+   (guard_C04: den <> None), Loop.duration, the duration of the single waveform and the sum of the pieces are all d;
+   an empty program means d = 0 *)
+Theorem C04_program_views_agree : forall p e d, den p (qenv_of e) = Some d ->
+  forall o, create_program p e = Ok o ->
+  match o with
+  | None => d == 0
+  | Some prog => loop_duration prog == d /\ (exists q, wf_duration prog = Some q /\ q == d) /\ sum_pieces 1 prog == d
+  end.
+Proof. exact program_views_agree. Qed.
+Print Assumptions C04_program_views_agree.
+
+(* full statement for the symbolic side: the duration expression evaluates to the denoted duration *)
+Definition C04_symbolic_agrees_statement : Prop :=
+  forall p e v d, sym p e = Ok v -> den p (qenv_of e) = Some d -> time_of v == d.
+
+(* proved for templates without for-loop, table and atomic pulse arithmetic *)
+Theorem C04_symbolic_agrees_partial : forall p, simple p = true ->
+  forall e v d, sym p e = Ok v -> den p (qenv_of e) = Some d -> time_of v == d.
+Proof. exact Sp_all. Qed.
+Print Assumptions C04_symbolic_agrees_partial.
+
+(* all four views (fragment `simple` for the symbolic one), float parameters read as their shortest decimal *)
+Theorem C04_agree_partial : forall p e d v o,
+  simple p = true -> den p (qenv_of e) = Some d -> create_program p e = Ok o -> sym p (decimalize e) = Ok v ->
+  time_of v == d /\
+  match o with
+  | None => d == 0
+  | Some prog => loop_duration prog == d /\ (exists q, wf_duration prog = Some q /\ q == d) /\ sum_pieces 1 prog == d
+  end.
+Proof. exact agree_partial. Qed.
+Print Assumptions C04_agree_partial.
+
+(* without the guard the faithful model of the unchanged code violates the property: four input classes *)
+Theorem C04_agree_refuted_negative_count : disagrees w_negcount /\ guard_C04 (fst w_negcount) (snd w_negcount) = false.
+Proof. exact refuted_negcount. Qed.
+Print Assumptions C04_agree_refuted_negative_count.
+Theorem C04_agree_refuted_negative_duration : disagrees w_negdur /\ guard_C04 (fst w_negdur) (snd w_negdur) = false.
+Proof. exact refuted_negdur. Qed.
+Print Assumptions C04_agree_refuted_negative_duration.
+Theorem C04_agree_refuted_near_integer : disagrees w_nearint /\ guard_C04 (fst w_nearint) (snd w_nearint) = false.
+Proof. exact refuted_nearint. Qed.
+Print Assumptions C04_agree_refuted_near_integer.
+Theorem C04_agree_refuted_parallel_unequal : disagrees w_parallel /\ guard_C04 (fst w_parallel) (snd w_parallel) = false.
+Proof. exact refuted_parallel. Qed.
+Print Assumptions C04_agree_refuted_parallel_unequal.
+
+(* the hypotheses are satisfiable by non-trivial inputs *)
+Theorem C04_example_guard_satisfiable :
+  simple ex_tpl = true /\ (exists d, den ex_tpl (qenv_of ex_env) = Some d /\ d == 3000001 # 10)
+  /\ (exists prog, create_program ex_tpl ex_env = Ok (Some prog)) /\ (exists v, sym ex_tpl (decimalize ex_env) = Ok v).
+Proof. exact example_guard. Qed.
+Print Assumptions C04_example_guard_satisfiable.
+Theorem C04_example_for_loop_guard_satisfiable :
+  (exists d, den ex_for (qenv_of ex_for_env) = Some d /\ d == 9 # 4)
+  /\ exists prog, create_program ex_for ex_for_env = Ok (Some prog).
+Proof. exact example_for. Qed.
+Print Assumptions C04_example_for_loop_guard_satisfiable.
